@@ -1442,3 +1442,22 @@ def sk_is_regressor(I, args, kwargs):
         except SymRaise:
             return False
     return False
+
+
+# sklearn building blocks used by PolynomialTrendForecaster: recorded constructor calls (external, assumed)
+for _p in ("sklearn.preprocessing.PolynomialFeatures", "sklearn.linear_model.LinearRegression"):
+    def _mk(p):
+        def f(I, args, kwargs):
+            o = Opaque(p.split(".")[-1])
+            o.ctor = (p, list(args), dict(kwargs))
+            return o
+        return f
+    LIB[_p] = _mk(_p)
+
+
+@lib("sklearn.pipeline.make_pipeline")
+def sk_make_pipeline(I, args, kwargs):
+    USED.add("sklearn make_pipeline(PolynomialFeatures(degree, include_bias), regressor): least-squares polynomial in its input column (assumed)")
+    o = AbstractObj("sklearn_pipeline", isa=("Pipeline", "BaseEstimator"))
+    o.parts = list(args)
+    return o
